@@ -2,7 +2,7 @@
 # usage: tools/try_patch.sh <patch.diff> <PID> [PID...]
 # Applies the patch to a scratch copy of /repo's src+plugins (never to /repo), runs the quick checks, removes the copy.
 set -u
-diff="$1"; shift
+diff="$(realpath "$1")"; shift
 s=$(mktemp -d /tmp/verif-try-XXXXXX)
 cp -r /repo/src /repo/plugins "$s"/ && find "$s" -name __pycache__ -prune -exec rm -rf {} + 
 ( cd "$s" && patch -p1 -s < "$diff" ) || { echo "patch does not apply"; rm -rf "$s"; exit 3; }
